@@ -75,8 +75,21 @@ Random ==
   [i \in 1..NRandom |-> [kind |-> GKind, fam |-> "rand", srcs |-> SrcSeq(RSrc),
                          steps |-> [j \in 1..RandLen |-> RandomElement(A)]]]
 
+(* recovery from a transient refusal: [v1 loaded,] the processor starts refusing, one environment  *)
+(* step, the refusal ends, [one more step]; the final sync must then bring every source up to date *)
+(* (a provider that remembers refused content as applied never does)                              *)
+Recover ==
+  IF Env("VERIF_GEN_RECOVER", "0") # "1" THEN <<>> ELSE
+  LET S == SrcSet(1)
+      A == {a \in Alphabet(S, FALSE) : a.op # "refuse"}
+      pre == {<<>>} \cup {<<Step("set", s, "v1", "sync")>> : s \in S}
+      post == {<<>>} \cup {<<a>> : a \in {x \in A : x.then = "sync"}}
+      hs == SetToSeq({h \in {p \o <<Step("refuse", "", "on", "none")>> \o <<m>> \o <<Step("refuse", "", "off", "none")>> \o q :
+                                p \in pre, m \in {x \in A : x.then = "sync"}, q \in post} : Canonical(h)})
+  IN [i \in 1..Len(hs) |-> [kind |-> GKind, fam |-> "recover", srcs |-> SrcSeq(1), steps |-> hs[i]]]
+
 ASSUME
-  LET all == Exhaustive \o Random IN
+  LET all == Exhaustive \o Random \o Recover IN
   /\ ndJsonSerialize(OutFile, all)
   /\ PrintT(<<"GENERATED", Len(all) - NRandom, NRandom>>)
 =============================================================================
